@@ -53,7 +53,7 @@ func properties() []Property {
 			}},
 		{ID: "C11", Assumptions: []string{aSummaries, aModels, aE1, "paired executions: the same drawn packet on two freshly wired modules whose states differ only in the coins already on the orbiter account (arbitrary amounts in the transferred denom and one other denom vs. none)", "bank send restrictions of other modules on the sweep are outside the claim"},
 			Harnesses: []HarnessSpec{
-				{Name: "H_C11_priors", Profile: "bit", Quick: b("rcvKinds", 2, "denomKinds", 1, "memoKinds", 1, "amountKinds", 1, "intKinds", 2, "fees", 1, "priors", 1, "pauses", 0, "ptMax", 0, "feeRcpKinds", 1), Thorough: b("rcvKinds", 2, "denomKinds", 2, "memoKinds", 2, "amountKinds", 1, "intKinds", 4, "fees", 2, "priors", 1, "pauses", 1, "ptMax", 0, "feeRcpKinds", 1), Covers: []string{"both-succeed", "both-refused"}},
+				{Name: "H_C11_priors", Profile: "bit", Quick: b("rcvKinds", 2, "denomKinds", 1, "memoKinds", 1, "amountKinds", 1, "intKinds", 2, "fees", 1, "priors", 1, "pauses", 0, "ptMax", 1, "feeRcpKinds", 1), Thorough: b("rcvKinds", 2, "denomKinds", 2, "memoKinds", 2, "amountKinds", 1, "intKinds", 4, "fees", 2, "priors", 1, "pauses", 1, "ptMax", 1, "feeRcpKinds", 1), Covers: []string{"both-succeed", "both-refused"}},
 			}},
 		{ID: "C04", Assumptions: []string{aSummaries, aModels, "math.NewIntFromString on a concrete string is computed with math/big (SetString base 0, 256-bit limit) exactly as cosmossdk.io/math does; fixed fee amounts are the decimal rendering of an arbitrary symbolic Int or one of a few non-numbers", "fee recipients are concrete strings (two valid accounts, possibly repeated, and malformed ones): bech32 decoding itself is the SDK's"},
 			Harnesses: []HarnessSpec{
@@ -79,6 +79,12 @@ func properties() []Property {
 			Harnesses: []HarnessSpec{
 				{Name: "H_C12_step", Profile: "bit", Quick: b("preEntries", 1), Thorough: b("preEntries", 2), Covers: []string{"pre-state-built", "transfer-refused", "transfer-succeeded"}},
 			}},
+		{ID: "C13", Assumptions: []string{aSummaries, aModels, aE3, "ledgers of up to entries entries written through the component's own setters (arbitrary totals incl. one-sided and zero entries, two sources, five destinations, two denoms), plus one entry for EVERY uint32 destination domain for the index-key derivation", "listings run on the CollectionPaginate summary with the REAL option and transform closures and the real index closures; page limits, offsets, next-keys, reverse and count-total are library code (query.CollectionPaginate / collections iterators) and are NOT decided — only the unpaged request (default page size 100) is"},
+			Harnesses: []HarnessSpec{
+				{Name: "H_C13_amounts", Profile: "bit", Quick: b("entries", 2, "srcs", 1, "doms", 1), Thorough: b("entries", 3, "srcs", 2, "doms", 2), Covers: []string{"ledger-built", "direct-lookup-hit", "direct-lookup-miss"}, TimeoutQuick: 300},
+				{Name: "H_C13_counts", Profile: "bit", Quick: b("entries", 2, "srcs", 2, "doms", 2), Thorough: b("entries", 3, "srcs", 2, "doms", 2), Covers: []string{"ledger-built", "direct-lookup-hit", "direct-lookup-miss"}, TimeoutQuick: 300},
+				{Name: "H_C13_index_keys", Profile: "arith", Covers: []string{"stored"}},
+			}},
 		{ID: "C14", Assumptions: []string{aSummaries, aModels, "decoded payload shapes are built as Go values through the exported API (every pointer position nil or not, identifiers any int32, byte fields of any length up to the bound, integers and coins of any value; nil math.Int excluded because the Any round trip never yields one) and fed to the stages in the order the receive path calls them: Payload.Validate, the transfer hook, payload processing, and the dispatcher directly", "every instruction that can panic (nil dereference, index / slice bounds, slice-to-array conversion, division by zero, failed type assertion, nil map write, explicit panic) and every documented panic of a summarised library function (math.Int overflow, nil Int receiver, sdk.NewCoin / NewCoins on invalid input) is an obligation on every path", "panics inside the JSON / protobuf codecs and inside bech32 are outside the claim (summarised): e.g. \"fees_info\":[null] panics inside jsonpb before any orbiter code runs"},
 			Harnesses: []HarnessSpec{
 				{Name: "H_C14_action_shapes", Profile: "bit", Quick: b("actionShapes", 1, "fwdShapes", 0, "actions", 1, "feeEntries", 1, "bytes", 33), Thorough: b("actionShapes", 1, "fwdShapes", 0, "actions", 2, "feeEntries", 2, "bytes", 33), Covers: []string{"malformed-payload-refused", "payload-validated", "processed", "dispatcher-refused", "dispatched"}, TimeoutQuick: 300},
@@ -86,9 +92,15 @@ func properties() []Property {
 				{Name: "H_C14_packet_envelope", Profile: "bit", Quick: b("envelope", 1, "fields", 0, "chanlen", 10, "segments", 0, "seglen", 0), Thorough: b("envelope", 1, "fields", 0, "chanlen", 12, "segments", 0, "seglen", 0), Covers: []string{"success-ack", "error-ack"}, TimeoutQuick: 300},
 				{Name: "H_C14_packet_fields", Profile: "bit", Quick: b("envelope", 0, "fields", 1, "chanlen", 0, "segments", 3, "seglen", 1), Thorough: b("envelope", 0, "fields", 1, "chanlen", 0, "segments", 4, "seglen", 2), Covers: []string{"success-ack", "error-ack"}, TimeoutQuick: 300},
 			}},
+		{ID: "C15", Assumptions: []string{aSummaries, "the JSON / protobuf codecs are summarised as an abstract encode / decode pair over blobs with decode(encode(x)) = x; concrete documents (not JSON, null, arrays, missing / null / scalar orbiter key, two root keys) go through the real encoding/json pre-check; unknown-field rejection, the type-URL registry, enum spelling and duplicated JSON keys are behaviour of ProtoCodec / jsonpb and are NOT decided", "the round trip and purity assertions are additionally executed natively with the real codec on every replayed path (trace validation)"},
+			Harnesses: []HarnessSpec{
+				{Name: "H_C15_validate", Profile: "bit", Quick: b("actionShapes", 1, "fwdShapes", 1, "actions", 1, "feeEntries", 0, "bytes", 2), Thorough: b("actionShapes", 1, "fwdShapes", 1, "actions", 2, "feeEntries", 1, "bytes", 2), Covers: []string{"accepted", "refused"}, TimeoutQuick: 300},
+				{Name: "H_C15_ids", Profile: "bit", Covers: []string{"accepted", "refused"}},
+				{Name: "H_C15_parse", Profile: "bit", Covers: []string{"accepted", "refused", "constructor-refused"}},
+			}},
 		{ID: "C16", Assumptions: []string{aSummaries, aModels, "denominations are built from 1..segments '/'-free segments (the identifiers transfer / channel-7 / channel-8 / uusdc or arbitrary bytes of length 0..seglen), empty segments allowed; a denomination with more separators than that is outside the claim", "source port/channel: transfer/channel-7 or transfer/channel-8", "reference = the ICS-20 application's own derivation written with the same ibc-go helpers (ReceiverChainIsSource, GetDenomPrefix, ParseDenomTrace); channel identifier syntax is ibc-go's (summarised as a byte predicate)"},
 			Harnesses: []HarnessSpec{
-				{Name: "H_C16_denom", Profile: "bit", Quick: b("segments", 4, "seglen", 2), Thorough: b("segments", 6, "seglen", 4), Covers: []string{"accepted", "refused", "refused-not-returning"}},
+				{Name: "H_C16_denom", Profile: "bit", Quick: b("segments", 5, "seglen", 1), Thorough: b("segments", 6, "seglen", 4), Covers: []string{"accepted", "refused", "refused-not-returning"}},
 				{Name: "H_C16_credit", Profile: "bit", Quick: b("rcvKinds", 2, "denomKinds", 4, "memoKinds", 1, "amountKinds", 1, "intKinds", 1, "fees", 1, "priors", 0, "pauses", 0, "ptMax", 0, "feeRcpKinds", 1), Covers: []string{"accepted", "not-accepted"}},
 			}},
 		{ID: "C17", Assumptions: []string{aSummaries, aModels, aE3, "the collections summary includes the key codec's refusal of 0x00 in non-terminal string key components", "genesis lists of at most list / entries elements, counterparty strings of at most strlen bytes, protocol / action ids any int32; JSON (un)marshalling of the genesis document and module.go glue are outside the claim"},
